@@ -24,7 +24,7 @@ import ast
 import re
 import xml.etree.ElementTree as ET
 
-from . import common, norm
+from . import common
 
 AnalysisBroken = common.AnalysisBroken
 
